@@ -20,8 +20,12 @@ func ZZ_C01_partialIntake() {
 	n, t := zz.Param("n", 3), zz.Param("t", 2)
 	nw := zzNewNet(n, t)
 	own := zz.Choose("own", n)
-	// concrete clock (round/time conversion itself is C16): 7 periods and 13 s after genesis => current round 8
+	// concrete clock (round/time conversion itself is C16): 7 periods and 13 s after genesis => current round 8;
+	// variant: four periods BEFORE genesis (the window between DKG completion and genesis)
 	now := zzGenesis + 7*zzPeriodS + 13
+	if zz.Param("clock_state", 0) == 1 {
+		now = zzGenesis - 4*zzPeriodS
+	}
 	clk := zzfake.NewClock(now)
 	nextRound, _ := common.NextRound(now, nw.group.Period, nw.group.GenesisTime)
 	head := &common.Beacon{Round: zz.U64("head.round"), Signature: zz.Bytes("head.sig", 2)}
